@@ -155,8 +155,11 @@ Match(rule, h) ==
   /\ hist' = Append(hist, <<"tok", rule, text'>>) /\ eaten' = 0
   /\ UNCHANGED <<rs, inited, opt, files, yyin, cur, bstack, saved, fid, fresh, eof, cvars, wfrom, switched>>
 
+\* REJECT is defined on the token as matched: it may follow yyless() but not a yyunput()/yyinput() of
+\* the same action (the manual defines it as "the next best rule for the same input")
 Reject ==
   /\ phase = "act" /\ cands # <<>>
+  /\ eaten = 0 /\ SubSeq(text, Len(pfx) + 1, Len(text)) \o buf = buf0
   /\ phase' = "rej"
   /\ UNCHANGED <<rs, inited, opt, bvars, cvars, lineno, kvars, wfrom, switched, hist>>
 
